@@ -28,16 +28,18 @@ def indentOf (fmt : Bool) (level : Nat) : Bytes := spaces (if fmt then 2 * level
 /-- `LEVEL++` on a `uint16_t` -/
 def incLevel (l : Nat) : Nat := (l + 1) % 65536
 
-/-- what follows a newline of the text: `if (*t != '\n') ly_print_("%*s ", INDENT)` -/
-def contIndent (ind : Bytes) (next : Bytes) : Bytes :=
-  if next.head? == some 10 then [] else ind ++ [32]
+/-- what follows a literal newline of the text: `if (nl[1] != '\n') ly_print_("%*s", cont_indent, "")` -/
+def contIndent (n : Nat) (next : Bytes) : Bytes :=
+  if next.head? == some 10 then [] else spaces n
 
-/-- body of a double-quoted text: segments between newlines go through `ypr_encode`, newlines are literal -/
-def dqBody (ind : Bytes) : Bytes → Bytes
-  | [] => []
-  | c :: cs =>
-    if c == 10 then 10 :: (contIndent ind cs ++ dqBody ind cs)
-    else encByte c ++ dqBody ind cs
+/-- body of a double-quoted text: segments between newlines go through `ypr_encode`; a newline is literal and followed
+    by `n` blanks (none in front of an empty line) — unless the line ends in a blank (`sp`), which the reader would
+    strip: then the line break is written as the escape `\n` and the text continues on the same line -/
+def dqBody (n : Nat) : (sp : Bool) → Bytes → Bytes
+  | _, [] => []
+  | sp, c :: cs =>
+    if c == 10 then (if sp then [92, 110] else 10 :: contIndent n cs) ++ dqBody n false cs
+    else encByte c ++ dqBody n (c == 32) cs
 
 def sqOpen : Bytes := [39, 32, 43, 32, 34]                              -- `' + "`
 def sqClose (ind : Bytes) : Bytes := [34, 32, 43, 10] ++ ind ++ [39]    -- `" +\n<indent>'`
@@ -47,26 +49,28 @@ def sqClose (ind : Bytes) : Bytes := [34, 32, 43, 10] ++ ind ++ [39]    -- `" +\
 def sqBody (ind : Bytes) : Bool → Bytes → Bytes
   | run, [] => if run then sqClose ind else []
   | run, c :: cs =>
-    if c == 10 then (if run then sqClose ind else []) ++ 10 :: (contIndent ind cs ++ sqBody ind false cs)
+    if c == 10 then (if run then sqClose ind else []) ++ 10 :: sqBody ind false cs   -- nothing may be added inside single quotes
     else if c == 39 then (if run then [] else sqOpen) ++ 39 :: sqBody ind true cs
     else (if run then sqClose ind else []) ++ c :: sqBody ind false cs
 
 def flagSingleLine (flags : Nat) : Bool := flags &&& LYS_YPR_TEXT_SINGLELINE != 0
 def flagSingleQuoted (flags : Nat) : Bool := flags &&& LYS_YPR_TEXT_SINGLEQUOTED != 0
 
-/-- `ypr_text`: what it prints after the statement name — separator, opening quote, text, closing quote -/
-def printTextArg (fmt : Bool) (level flags : Nat) (text : Bytes) : Bytes :=
+/-- `ypr_text`: what it prints after the statement name (of `nameLen` bytes) — separator, opening quote, text, closing
+    quote.  Continuation lines of a double-quoted text start in the column after the opening quote (`cont_indent`). -/
+def printTextArg (fmt : Bool) (level flags nameLen : Nat) (text : Bytes) : Bytes :=
   let sq := flagSingleQuoted flags
   let single := flagSingleLine flags && !(sq && text.contains 39)
   let quot : UInt8 := if sq then 39 else 34
   let lvl := if single then level else incLevel level
   let ind := indentOf fmt lvl
+  let n := if single then ind.length + nameLen + 2 else ind.length + 1
   (if single then [32, quot] else 10 :: (ind ++ [quot])) ++
-    ((if sq then sqBody ind false text else dqBody ind text) ++ [quot])
+    ((if sq then sqBody ind false text else dqBody n false text) ++ [quot])
 
 /-- `ypr_text(pctx, name, text, flags)`: everything it prints (up to and including the closing quote) -/
 def printText (fmt : Bool) (level flags : Nat) (name text : Bytes) : Bytes :=
-  indentOf fmt level ++ name ++ printTextArg fmt level flags text
+  indentOf fmt level ++ name ++ printTextArg fmt level flags name.length text
 
 /-- `struct lysp_stmt`: keyword text, optional argument, quoting flags of the argument, children -/
 inductive Stmt where
